@@ -1,5 +1,8 @@
 import CV.Model.Core.Machine
 import CV.Proofs.InvTimer
+import CV.Proofs.InvLoop
+import CV.Proofs.InvCacheMain
+import CV.Proofs.InvForest
 /-
 C09 — Timers never fire early, fire as often as specified, and bound the idle sleep.
 
@@ -27,17 +30,24 @@ different timers have different ones; a created timer has `expiry ≤ clock + in
 component exists.  It holds in particular when no timer has been created yet (`Init.of_fresh`),
 which is how the driver and the harness declare timers.
 
-Dependencies stated, not proved here
-  * that a registered, non-pending timer's handler IS called in every dispatch of generate_events
-    (handler cache C01, dispatch order C02), and that after the detach the old root no longer
-    calls it (C07): with those, `fires_when_due` gives "fires in the first loop iteration at or
-    after its expiry" and `oneshot_once` gives "exactly once";
-  * a one-shot timer that is itself a root cannot unregister (`unregister()` is a no-op for a
-    root) and fires again at every tick: `oneshot_once` says "pending or root", which is all the
-    code guarantees (noted in DESIGN §6 C09; same in the real code).
+Section 6 (proofs: CV/Proofs/InvLoop.lean) closes the two links that used to be stated only:
+  * `handler_loop_invokes_all` / `handler_loop_calls_only_listed`: a `_dispatcher` call that runs to
+    its end has called every handler of the list it was given (unless `event.stop()` cut the
+    loop) and nothing else; with C01's exact-set theorem (`dispatcher_step_live`):
+    `fires_in_first_iteration_at_or_after_expiry` - a registered timer's handler is called in
+    every dispatch of its root and fires when due - and `oneshot_never_again` - once the
+    unregistration of a fired one-shot timer has completed, no dispatch of another root calls it.
+What the code leaves open (and the theorems say so)
+  * a run that does not come back (the fallback generator blocks for ever, `SystemExit`) or an
+    `event.stop()` by a handler of higher priority ends a dispatch before the timer is called;
+  * a handler list computed BEFORE the detach (dispatch suspended by a nested `flush()`) may still
+    contain the timer; a detached one-shot timer that is ticked as its own root, or registered
+    again, fires again; a one-shot timer that is itself a root cannot unregister
+    (`unregister()` is a no-op for a root) and fires again at every tick: `oneshot_once` says
+    "pending or root", which is all the code guarantees (DESIGN §6 C09; same in the real code).
 -/
 namespace CV.C09
-open CV.Core
+open CV.Core CV.Core.Live
 
 /-- the initial-state hypothesis -/
 def Init (s0 : St) : Prop := TimerWF s0
@@ -228,5 +238,212 @@ theorem fires_when_due (c : Cfg) (t e : Nat) (tm : TimerSt) (hc : TimerCall c t 
     (ht : c.st.timers[t]? = some tm) (hcr : tm.created = true) (hdue : tm.expiry ≤ c.st.clock)
     (hp : (c.st.comp tm.comp).pending = false) : FiredIn c t :=
   t9_due_fires hc ⟨ht, hcr, hdue, hp⟩
+
+/-! ### 6. every dispatch of generate_events calls the registered timer; a detached one-shot is not called
+
+The two links that used to be decided by the oracle only.  Vocabulary (CV/Proofs/InvLoop.lean):
+  * `RunAbove k c c'`  `c'` is reached from `c` by machine steps and the stack never returns to
+                       `k` or below on the way - the run stays inside the `_dispatcher` call whose
+                       continuation is `k` (no return, no exception unwinding through it);
+  * `CalledAt k r e h c c'`  on that run the call frame `.invoke r h e` of handler `h` was on top,
+                       directly on the loop frame `.hAfter r e …` of this `_dispatcher` call;
+  * `CutAt k r e c c'`  on that run the loop of this `_dispatcher` call found `event.stopped` set
+                       after a handler returned and went to `.dispFin` (C02 `stop_breaks_loop`).
+The initial-state hypotheses are those of C01 (`InitForest`, `InitHandlers`, `InitCache`). -/
+
+/-- **The handler loop runs through the whole list it was given.**  From the loop frame
+    `.hLoop r e hs …` on continuation `k` to the end `.dispFin r e …` of the same `_dispatcher`
+    call: every handler of `hs` was called, unless the loop was cut by `event.stop()`.  (An
+    exception that is not caught by the loop - `SystemExit` re-raised by `stop()`, the fallback
+    generator blocking for ever - unwinds below `k`: then there is no run to `.dispFin`.)
+    Holds from EVERY configuration: `step` only rewrites the top of the stack. -/
+theorem handler_loop_invokes_all (c c' : Cfg) (r e : Nat) (hs : List Nat) (err err' : Bool) (stale : Outcome)
+    (k : List Frame) (hst : c.stack = .hLoop r e hs err stale :: k) (hrun : RunAbove k c c')
+    (hfin : c'.stack = .dispFin r e err' :: k) (h : Nat) (hh : h ∈ hs) :
+    CalledAt k r e h c c' ∨ CutAt k r e c c' :=
+  loop_invokes_all hst hrun hfin h hh
+
+/-- … and calls nothing else: a call frame directly on the loop frame of this `_dispatcher` call is
+    the call of a member of the list. -/
+theorem handler_loop_calls_only_listed (c c1 : Cfg) (r e : Nat) (hs : List Nat) (err : Bool) (stale : Outcome)
+    (k : List Frame) (hst : c.stack = .hLoop r e hs err stale :: k) (hrun : RunAbove k c c1)
+    (r' h' e' : Nat) (rest : List Nat) (err1 : Bool) (stale1 : Outcome)
+    (h1 : c1.stack = .invoke r' h' e' :: .hAfter r e rest err1 stale1 :: k) : h' ∈ hs :=
+  loop_calls_only_listed hst hrun h1
+
+/-- **A registered timer is called in every dispatch of its root, and fires when due.**
+    `_dispatcher(e)` runs on a root `r` (reachable configuration, `e` not cancelled; for the timers
+    `e` is the `generate_events` event of one loop iteration, but the statement holds for any
+    event); `h` is the `_on_generate_events` handler of timer `t` and is registered: it matches
+    the event at a component `d` of `r`'s tree (C01 `dispatch_exact_set`).  If the dispatcher call
+    runs to its end (`.dispFin`), then on the way `h` was called - a configuration `c1` with
+    `TimerCall c1 t e` - and if at that moment `t` is created, due (`expiry ≤ clock`) and its
+    component has no unregistration pending, that very step fires the timer's event; or else a
+    handler of higher or equal priority stopped the event (`CutAt`).
+    So a timer fires in the FIRST loop iteration whose `generate_events` dispatch calls it at or
+    after its expiry: the iteration's dispatch cannot skip it. -/
+theorem fires_in_first_iteration_at_or_after_expiry (s0 : St) (h0 : InitForest s0) (hH : InitHandlers s0)
+    (hC : InitCache s0) (c : Cfg) (hc : Reach s0 c) (r e remaining : Nat) (k : List Frame)
+    (hst : c.stack = .dispatcher r e remaining :: k) (hx : c.exn = none)
+    (hr : (c.st.comp r).root = r) (hcan : (c.st.ev e).cancelled = false)
+    (t h : Nat) (hk : ((step c).st.handler h).kind = .timer t)
+    (hreg : ∃ ch, ch ∈ (c.st.ev e).chans ∧ ∃ d, ReachIn (step c).st (step c).st.comps.length r d ∧
+      matchesAt (step c).st d (c.st.ev e).name ch h)
+    (c' : Cfg) (err' : Bool) (hrun : RunAbove k (step c) c') (hfin : c'.stack = .dispFin r e err' :: k) :
+    (∃ c1, RunAbove k (step c) c1 ∧ RunAbove k c1 c' ∧ TimerCall c1 t e ∧
+      ∀ tm, c1.st.timers[t]? = some tm → tm.created = true → tm.expiry ≤ c1.st.clock →
+        (c1.st.comp tm.comp).pending = false → FiredIn c1 t) ∨
+    CutAt k r e (step c) c' := by
+  obtain ⟨hs, h1, h2⟩ := dispatcher_step_live (K.init s0 hH hC)
+    (fun c hc => (FInv.reach h0 c hc).forest.cacheFacts) c hc r e remaining k hst hx hr hcan
+  have hnf : ((step c).st.handler h).kind.isFallback = false := by rw [hk]; rfl
+  have hmem : h ∈ hs := by
+    have : h ∈ nonFallback (step c).st hs := by
+      rw [h2]; exact (mem_freshHandlers _ _ _ _ _).mpr hreg
+    exact (List.mem_filter.mp this).1
+  rcases loop_invokes_all h1 hrun hfin h hmem with hcall | hcut
+  · obtain ⟨c1, rest, err, stale, r1, r2, hs1, hx1⟩ := hcall
+    have hlt : h < (step c).st.hs.length := handler_lt_of_kind (by rw [hk]; intro hh; cases hh)
+    have hk1 : (c1.st.handler h).kind = .timer t := by rw [(r1.handler_eq hlt).1]; exact hk
+    have htc : TimerCall c1 t e := ⟨r, h, _, hs1, hx1, hk1⟩
+    exact .inl ⟨c1, r1, r2, htc, fun tm ht hcr hdue hp => fires_when_due c1 t e tm htc ht hcr hdue hp⟩
+  · exact .inr hcut
+
+/-- a component that is its own parent is below no other component -/
+theorem detached_not_below {s : St} (hF : ForestInv s) {n r x : Nat} (hx : (s.comp x).parent = x)
+    (h : ReachIn s n r x) : x = r := by
+  induction h with
+  | here n c => rfl
+  | step n c d e hd _ ih =>
+    have he := ih hx
+    subst he
+    by_cases hc : c < s.comps.length
+    · exact absurd hx (by rw [(hF.childOf c e hc hd).2.1]; exact fun hh => (hF.childOf c e hc hd).2.2 hh.symm)
+    · have : s.comps.getD c dfltComp = dfltComp := by
+        simp [List.getD_eq_getElem?_getD, List.getElem?_eq_none (Nat.le_of_not_lt hc)]
+      rw [this] at hd
+      cases hd
+
+/-- **A one-shot timer whose unregistration completed is not called any more.**  When a one-shot
+    timer fires, `unregister()` is called on its component in the same step (`oneshot_once`);
+    while the unregistration is pending it does not fire (`never_early`); when it completes the
+    component `x` is detached: it is its own parent (C07 `detach_moves_subtree`).  From then on,
+    as long as `x` stays detached, every `_dispatcher` call on any other root `r ≠ x` - in a
+    reachable configuration, for any event - hands the handler loop a list that does not contain
+    the timer's handler `h`, and no step of that dispatcher call is a call of `h` at its level:
+    the timer cannot fire from it.  Hypothesis `hown`: `h` is installed in the table of `x` only
+    (`Timer` registers its own method; it is how the driver declares timers).
+    What remains is what the code allows: a handler list computed BEFORE the detach (a dispatch
+    suspended by a nested `flush()`) may still call `h`; a detached timer that is ticked as its
+    own root or registered again fires again (header comment, DESIGN §6 C09). -/
+theorem oneshot_never_again (s0 : St) (h0 : InitForest s0) (hH : InitHandlers s0)
+    (hC : InitCache s0) (c : Cfg) (hc : Reach s0 c) (r e remaining : Nat) (k : List Frame)
+    (hst : c.stack = .dispatcher r e remaining :: k) (hx : c.exn = none)
+    (hr : (c.st.comp r).root = r) (hcan : (c.st.ev e).cancelled = false)
+    (t h x : Nat) (hk : ((step c).st.handler h).kind = .timer t)
+    (hown : ∀ d name ch, matchesAt (step c).st d name ch h → d = x)
+    (hdet : ((step c).st.comp x).parent = x) (hne : x ≠ r) :
+    ∃ hs, (step c).stack = .hLoop r e hs false .none :: k ∧ h ∉ hs ∧
+      ∀ c1, RunAbove k (step c) c1 → ∀ r' e' rest err stale,
+        c1.stack ≠ .invoke r' h e' :: .hAfter r e rest err stale :: k := by
+  obtain ⟨hs, h1, h2⟩ := dispatcher_step_live (K.init s0 hH hC)
+    (fun c hc => (FInv.reach h0 c hc).forest.cacheFacts) c hc r e remaining k hst hx hr hcan
+  have hF : ForestInv (step c).st := (FInv.reach h0 _ (Reach.step hc)).forest
+  have hnot : h ∉ hs := by
+    intro hm
+    have hnf : h ∈ nonFallback (step c).st hs :=
+      List.mem_filter.mpr ⟨hm, by rw [hk]; rfl⟩
+    rw [h2] at hnf
+    obtain ⟨ch, _, d, hd, hmt⟩ := (mem_freshHandlers _ _ _ _ _).mp hnf
+    have := hown d _ ch hmt
+    subst this
+    exact hne (detached_not_below hF hdet hd)
+  exact ⟨hs, h1, hnot, fun c1 hrun r' e' rest err stale hs1 => hnot (loop_calls_only_listed h1 hrun hs1)⟩
+
+/-! ### non-vacuity of section 6 -/
+
+/-- a running manager 0 and a declared timer 0 (interval 0) whose component 1 carries the timer's
+    `generate_events` handler 0 and its `prepare_unregister_complete` handler 1 -/
+def nvSt (persist : Bool) : St :=
+  { comps := [{ parent := 0, root := 0, running := true },
+              { parent := 1, root := 1, htab := [(some Name.generateEvents, 0),
+                                                  (some (Name.prepareUnregister.child sfxComplete), 1)] }],
+    hs := [{ owner := 1, names := [Name.generateEvents], chan := none, kind := .timer 0 },
+           { owner := 1, names := [Name.prepareUnregister.child sfxComplete], chan := some (.inst 1),
+             kind := .prepUnregComplete }],
+    tmpls := [{ name := ⟨1, []⟩ }],
+    timers := [{ interval := 0, persist := persist, tmpl := 0, target := none, comp := 1, parent := 0 }] }
+
+abbrev nvRun (s : St) (op : ExtOp) (n : Nat) : Cfg := runN n (startOf (envChange s 0 []) op)
+/-- `Timer(0, …).register(manager)` -/
+def nv1 (p : Bool) : Cfg := nvRun (nvSt p) (.doAct 0 (.timerNew 0)) 20
+/-- ten steps into the first `tick()`: `_dispatcher` of the `generate_events` event 1 is on top -/
+def nvC : Cfg := nvRun (nv1 true).st (.tick 0) 10
+def nvK : List Frame := [.dispatchLoop 0, .flushFin 0 false]
+
+theorem nv_init (p : Bool) : InitForest (nvSt p) ∧ InitHandlers (nvSt p) ∧ InitCache (nvSt p) := by
+  cases p <;>
+  exact ⟨by unfold InitForest; decide +kernel, plain_tables_of_bounded _ (by decide +kernel),
+    caches_empty_of_bounded _ (by decide +kernel)⟩
+
+theorem nvC_reach : Reach (nvSt true) nvC :=
+  Reach.runN (.next 0 [] _ (Reach.runN (.init 0 [] _) 20) (by decide +kernel)) 10
+
+/-- all hypotheses of `fires_in_first_iteration_at_or_after_expiry` (and of
+    `handler_loop_invokes_all`, `handler_loop_calls_only_listed` with `c := step nvC`) hold in a
+    reachable configuration; the timer is due there, so the theorem's first alternative fires it -/
+example : Reach (nvSt true) nvC ∧ nvC.stack = .dispatcher 0 1 0 :: nvK ∧ nvC.exn = none ∧
+    (nvC.st.comp 0).root = 0 ∧ (nvC.st.ev 1).cancelled = false ∧
+    ((step nvC).st.handler 0).kind = .timer 0 ∧
+    (∃ ch, ch ∈ (nvC.st.ev 1).chans ∧ ∃ d, ReachIn (step nvC).st (step nvC).st.comps.length 0 d ∧
+      matchesAt (step nvC).st d (nvC.st.ev 1).name ch 0) ∧
+    RunAbove nvK (step nvC) (runN 8 (step nvC)) ∧ (runN 8 (step nvC)).stack = .dispFin 0 1 false :: nvK := by
+  refine ⟨nvC_reach, by decide +kernel, by decide +kernel, by decide +kernel, by decide +kernel,
+    by decide +kernel, ⟨.star, by decide +kernel, 1, ?_, ?_⟩, ?_, by decide +kernel⟩
+  · have hl : (step nvC).st.comps.length = 1 + 1 := by decide +kernel
+    rw [hl]
+    exact .step 1 0 1 1 (by decide +kernel) (.here 1 1)
+  · unfold matchesAt installedFor; decide +kernel
+  · exact RunAbove.ofRunN 8 (.refl (above_of_B (by decide +kernel))) (by decide +kernel)
+
+/-- the one-shot variant: `Timer` created, three `tick()`s; 15 steps into the third one the
+    `_dispatcher` of its `generate_events` event 6 is on top, and the unregistration of the
+    timer's component 1 has completed (it is its own parent) -/
+def nv2 : Cfg := nvRun (nv1 false).st (.tick 0) 40
+def nv3 : Cfg := nvRun nv2.st (.tick 0) 40
+def nvD : Cfg := nvRun nv3.st (.tick 0) 15
+
+theorem nvD_reach : Reach (nvSt false) nvD := by
+  have h1 : Reach (nvSt false) (nv1 false) := Reach.runN (.init 0 [] _) 20
+  have h2 : Reach (nvSt false) nv2 := Reach.runN (.next 0 [] _ h1 (by decide +kernel)) 40
+  have h3 : Reach (nvSt false) nv3 := Reach.runN (.next 0 [] _ h2 (by decide +kernel)) 40
+  exact Reach.runN (.next 0 [] _ h3 (by decide +kernel)) 15
+
+/-- all hypotheses of `oneshot_never_again` hold in a reachable configuration; the list handed to
+    the loop there is `[4]` (the fallback generator only) -/
+example : Reach (nvSt false) nvD ∧ nvD.stack = .dispatcher 0 6 0 :: nvK ∧ nvD.exn = none ∧
+    (nvD.st.comp 0).root = 0 ∧ (nvD.st.ev 6).cancelled = false ∧
+    ((step nvD).st.handler 0).kind = .timer 0 ∧
+    (∀ d name ch, matchesAt (step nvD).st d name ch 0 → d = 1) ∧
+    ((step nvD).st.comp 1).parent = 1 ∧ (1 : Nat) ≠ 0 :=
+  ⟨nvD_reach, by decide +kernel, by decide +kernel, by decide +kernel, by decide +kernel, by decide +kernel,
+   matches_only_at _ 0 1 (by decide +kernel), by decide +kernel, by decide⟩
+
+/-- the hypotheses of `handler_loop_invokes_all` / `handler_loop_calls_only_listed`: the step of
+    `nvC` starts the loop with a list that contains the timer's handler 0, and the run above `nvK`
+    reaches `.dispFin` (previous example) -/
+example : ∃ hs, (step nvC).stack = .hLoop 0 1 hs false .none :: nvK ∧ 0 ∈ hs := by
+  obtain ⟨hs, h1, h2⟩ := dispatcher_step_live (K.init _ (nv_init true).2.1 (nv_init true).2.2)
+    (fun c hc => (FInv.reach (nv_init true).1 c hc).forest.cacheFacts) nvC nvC_reach 0 1 0 nvK
+    (by decide +kernel) (by decide +kernel) (by decide +kernel) (by decide +kernel)
+  refine ⟨hs, h1, ?_⟩
+  have : 0 ∈ nonFallback (step nvC).st hs := by
+    rw [h2]
+    refine (mem_freshHandlers _ _ _ _ _).mpr ⟨.star, by decide +kernel, 1, ?_, ?_⟩
+    · have hl : (step nvC).st.comps.length = 1 + 1 := by decide +kernel
+      rw [hl]
+      exact .step 1 0 1 1 (by decide +kernel) (.here 1 1)
+    · unfold matchesAt installedFor; decide +kernel
+  exact (List.mem_filter.mp this).1
 
 end CV.C09
